@@ -79,3 +79,21 @@ From SCAD Require Import Geom.Poly Geom.Mesh_proofs Geom.Volume_proofs.
 Theorem C05_linear_extrude_volume : forall (pts : list (pt2 R)) (h : R) ph, linear_extrude pts h = Some ph ->
   complete (enumerate pts) -> vol6 (fst ph) (snd ph) = 3 * h * Poly.area2 pts.
 Proof. exact linear_extrude_volume. Qed.
+
+(* ---- the volume of a revolve (Pappus with 2 pi replaced by segments sin(360/segments)) ----
+   moment(profile) = sum over the profile's edges a -> b of (xa + xb)(xa yb - xb ya) = six times the first moment of
+   the outline about the axis (signed area times distance of the centroid). For every profile the builder accepts,
+   every angle in [0, 360] and every segment count, whatever the caps' triangulation produced. *)
+From SCAD Require Import Geom.Revolve_algebra Geom.Revolve_volume.
+From SCAD Require Geom.Cyc.
+Theorem C05_rotate_extrude_volume : forall (profile : list (pt2 R)) (degrees : R) (segments : Z) ph,
+  rotate_extrude profile degrees segments = Some ph ->
+  vol6 (fst ph) (snd ph) = IZR segments * dsin (degrees / IZR segments) * Cyc.csum (pt2 R) R 0 Rplus (fun a b => (x2 a + x2 b) * (x2 a * y2 b - x2 b * y2 a)) profile.
+Proof. exact rotate_extrude_volume. Qed.
+(* with a complete cap triangulation the moment is the sum over the cap's triangles of (xa + xb + xc) * (twice their
+   signed area): each triangle's own first moment -- the cap tiles the profile in first moment as well as in area *)
+Theorem C05_moment_by_triangles : forall (profile : list (pt2 R)), (3 <= length profile)%nat -> complete (enumerate profile) ->
+  moment profile = rsum (map (fun t => (let '(a, b, c) := t in x2 (snd a) + x2 (snd b) + x2 (snd c)) * Tri_proofs.tri_area2 t) (fst (Tri_proofs.run (enumerate profile)))).
+Proof.
+  intros profile Hn Hc. rewrite (moment_by_triangles profile Hn Hc). f_equal. apply map_ext. intros t. apply tri_moment_area.
+Qed.
